@@ -88,9 +88,54 @@ TRUSTED_BASE = ["python str semantics: str.__eq__(s, non-str) is NotImplemented 
 ASSUMPTIONS = ["the availability-checker thread and remote formats' network behaviour are outside every contract"]
 
 
+def _replay_local_basins():
+    """a dataset that must not open local basins (as one reached through a network format) meets basin
+    definitions of every stated type whose format reads a local file"""
+    import json, pathlib, tempfile, warnings
+    from unittest import mock
+    import numpy as np
+    import dclab
+    import dclab.rtdc_dataset.writer as w
+    import dclab.rtdc_dataset.export as e
+    from dclab.rtdc_dataset import RTDCWriter, fmt_hdf5
+    old_w, old_e = w.version, e.version
+    w.version = e.version = "0.60.0"
+    try:
+        with tempfile.TemporaryDirectory(prefix="c14_") as td, warnings.catch_warnings():
+            warnings.simplefilter("ignore")
+            d = pathlib.Path(td)
+            n = 6
+            meta = {"experiment": {"sample": "x", "run index": 1, "run identifier": "abc"}, "imaging": {"pixel size": 0.34},
+                    "setup": {"channel width": 20, "flow rate": 0.04, "chip region": "channel", "medium": "CellCarrierB"}}
+            with RTDCWriter(d / "local.rtdc") as hw:
+                hw.store_metadata(meta)
+                hw.store_feature("deform", np.linspace(.01, .1, n))
+                hw.store_feature("area_um", np.linspace(20, 70, n))
+            for typ, key in (("file", "paths"), ("remote", "urls"), ("internal", "paths")):
+                p = d / f"ref_{typ}.rtdc"
+                with RTDCWriter(p) as hw:
+                    hw.store_metadata(meta)
+                    hw.store_feature("deform", np.linspace(.01, .1, n))
+                    bdef = {"type": typ, "format": "hdf5", "name": "b", key: [str(d / "local.rtdc")], "features": ["area_um"]}
+                    hw.write_text(hw.h5file.require_group("basins"), "k1", json.dumps(bdef, indent=2).split("\n"))
+                with mock.patch.object(fmt_hdf5.RTDC_HDF5, "_local_basins_allowed", False, create=True):
+                    with dclab.new_dataset(p) as ds:
+                        ds._local_basins_allowed = False
+                        opened = [type(b).__name__ for b in ds.basins]
+                        if opened or "area_um" in ds:
+                            return {"failed": True, "detail": f"a dataset that must not open local basins follows a basin "
+                                                              f"definition of type '{typ}' with format 'hdf5' to the local "
+                                                              f"file {d.name}/local.rtdc (basins: {opened})"}
+    finally:
+        w.version, e.version = old_w, old_e
+    return {"failed": False, "detail": "no local file is opened, whatever type the definition states"}
+
+
 def replay(unit_name, inp, obligation=""):
     import warnings
     from dclab.rtdc_dataset import feat_basin
+    if unit_name.startswith("RTDCBase.basins_retrieve"):
+        return _replay_local_basins()
     if not unit_name.startswith("Basin.verify_basin"):
         return {"failed": None, "detail": "no replay for " + unit_name}
     mapping = "same" if "[same" in unit_name else "basinmap0"
@@ -197,6 +242,10 @@ BDICTS = [
     {"type": "internal", "format": "h5dataset", "key": "k_internal", "paths": ["basin_events"],
      "features": ["image"], "name": "i"},
     {"type": "file", "format": "hdf5", "key": "k_file2", "paths": ["../rel/other.rtdc"], "name": "f2"},
+    # definitions whose stated type does not match what their format does: a local-file format
+    # declared as "remote" / "internal" still opens a file of the local file system
+    {"type": "remote", "format": "hdf5", "key": "k_disguised", "urls": ["/local/secret.rtdc"], "name": "x"},
+    {"type": "internal", "format": "hdf5", "key": "k_disguised2", "paths": ["/local/secret2.rtdc"], "name": "y"},
 ]
 
 
@@ -245,16 +294,16 @@ class BasinsRetrieve(Contract):
             return [("returns a list", z3.BoolVal(False))]
         posts = []
         allkeys = {d["key"] for d in BDICTS}
-        key_of = {"f": "k_file", "r": "k_remote", "i": "k_internal", "f2": "k_file2"}
+        key_of = {"f": "k_file", "r": "k_remote", "i": "k_internal", "f2": "k_file2", "x": "k_disguised", "y": "k_disguised2"}
         for i, b in enumerate(result):
             f = b.fields
             key = key_of.get(f.get("name"))
             posts.append((f"basin {i}: not on the ignore list (cycle guard)",
                           z3.BoolVal(key is not None and key not in g.ignored)))
-            posts.append((f"basin {i}: file-type only if local basins are allowed",
+            posts.append((f"basin {i}: a basin class that opens local files only if local basins are allowed",
                           z3.Implies(z3.BoolVal(f["basin_type"] == "file"), to_z3(g.allowed))))
             posts.append((f"basin {i}: file-type basins were verified",
-                          z3.Implies(z3.BoolVal(f["basin_type"] == "file"), to_z3(f["_verify"]))))
+                          z3.Implies(z3.BoolVal(key in ("k_file", "k_file2")), to_z3(f["_verify"]))))
             ib = f.get("ignored_basins") or []
             posts.append((f"basin {i}: passes on the ignore list and all own keys",
                           z3.BoolVal(set(g.ignored) | allkeys <= set(ib))))
@@ -262,6 +311,59 @@ class BasinsRetrieve(Contract):
                           z3.BoolVal(f.get("measurement_identifier") is g.mid)))
         posts.append(("the ignore list of the dataset is not shortened",
                       z3.BoolVal(set(g.ignored) <= set(a.self.fields["_basins_ignored"]))))
+        return posts
+
+
+class BasinAvail(Contract):
+    """Basin.is_available(): whether the basin can be reached right now (environment)"""
+    name = "BasinInst.is_available"
+    trusted = True
+
+    def __call__(self, interp, b, *a, **k):
+        return b.fields["_available"]
+
+
+class BasinsProp(Contract):
+    name = "RTDCBase.basins"
+    trusted = True
+    is_property = True
+
+    def __call__(self, interp, ds):
+        return ds.fields["_basins_list"]
+
+
+class FeaturesBasin(Contract):
+    """RTDCBase.features_basin: a feature is offered through basins exactly when a basin that can be
+    reached right now provides it -- an unreachable basin makes its features unavailable (however its
+    definition lists them)"""
+    path = CORE
+    module = COREMOD
+    name = "RTDCBase.features_basin"
+    qualname = "RTDCBase.features_basin"
+    classes = {"RTDCBase": (CORE, "RTDCBase")}
+    class_modules = {"RTDCBase": COREMOD}
+    params = ("self",)
+    OFFERS = (["area_um", "deform"], ["deform"], ["image"], [])
+
+    def __init__(self):
+        super().__init__()
+        self.callees = {"BasinInst.is_available": BasinAvail(), "RTDCBase.basins": BasinsProp()}
+
+    def inputs(self, ctx):
+        self._av = [ctx.bool(f"basin_{i}_is_available", inp=True) for i in range(len(self.OFFERS))]
+        basins = [ctx.obj("BasinInst", {"features": list(fs), "_available": self._av[i], "name": f"b{i}"})
+                  for i, fs in enumerate(self.OFFERS)]
+        self_ = ctx.obj("RTDCBase", {"_basins_features": None, "_basins_list": basins}, name="self")
+        return {"self": self_}
+
+    def ensures(self, ctx, old, a, result):
+        if not isinstance(result, list):
+            return [("returns a list of feature names", z3.BoolVal(False))]
+        posts = []
+        for f in sorted({x for fs in self.OFFERS for x in fs}):
+            offered = z3.Or(*[to_z3(self._av[i], "bool") for i, fs in enumerate(self.OFFERS) if f in fs])
+            posts.append((f"'{f}' is offered exactly when a reachable basin provides it", z3.BoolVal(f in result) == offered))
+        posts.append(("sorted, without repetitions", z3.BoolVal(result == sorted(set(result)))))
         return posts
 
 
@@ -359,8 +461,8 @@ class GetFeatureData(Contract):
                 ("the basin dataset's feature", z3.BoolVal(result == "DATA"))]
 
 
-UNITS += [BasinsRetrieve(), BasinDs(), GetFeatureData()]
-TRUSTED += [BasinCtor("HDF5Basin", "file"), BasinInstVerify(), DsMeasId(), BasinsGetDicts()]
+UNITS += [BasinsRetrieve(), BasinDs(), GetFeatureData(), FeaturesBasin()]
+TRUSTED += [BasinAvail(), BasinCtor("HDF5Basin", "file"), BasinInstVerify(), DsMeasId(), BasinsGetDicts()]
 
 
 def extra_checks(run):
